@@ -212,6 +212,8 @@ pub fn dispatch(n: usize, df: Df, pre: &[u8], ri: usize, srw: &ASrw, choices: &s
         6 => arf_line::<6>(df, pre, ri, srw, choices, maxcalls, w),
         8 => arf_line::<8>(df, pre, ri, srw, choices, maxcalls, w),
         16 => arf_line::<16>(df, pre, ri, srw, choices, maxcalls, w),
+        33 => arf_line::<33>(df, pre, ri, srw, choices, maxcalls, w),
+        48 => arf_line::<48>(df, pre, ri, srw, choices, maxcalls, w),
         64 => arf_line::<64>(df, pre, ri, srw, choices, maxcalls, w),
         _ => false,
     }
@@ -307,7 +309,51 @@ pub fn run(mode: &str, thorough: bool, seed: u64, w: &mut impl std::io::Write) {
             }
         }
     }
-    eprintln!("STAT arf mode={} scenarios={} exhaustive_stream_len={} sizes={:?}", mode, n, maxlen, sizes);
+    // long frames around the buffer size, chunk sizes around 8 / SIZE, Pending anywhere, random resume / cancel
+    let lcases = if thorough { 20000 } else { 2500 };
+    for _ in 0..lcases {
+        let size = [16usize, 33, 48, 64][rng.below(4)];
+        let df = [Df::Line, Df::Crlf, Df::Line][rng.below(3)];
+        let term: &[u8] = if df == Df::Crlf { b"\r\n" } else { b"\n" };
+        let nf = 1 + rng.below(4);
+        let mut data: Vec<u8> = vec![];
+        for _ in 0..nf {
+            let fl = match rng.below(8) {
+                0 => 0,
+                1 => 1 + rng.below(3),
+                2 => size / 2,
+                3 => size - term.len(),
+                4 => size - term.len() + 1,
+                _ => size.saturating_sub(10) + rng.below(10).min(size),
+            };
+            for i in 0..fl {
+                data.push([b'a', 0x80, 0xff, b'\r', 0x01, 0x7f][(i + rng.below(2)) % 6]);
+            }
+            if fl > 0 && rng.chance(2, 3) {
+                let k = data.len() - 1;
+                data[k] = [0x0bu8, 0x09, 0x01, 0x0c, 0x0e, 0x8a, 0x8d, b'\r', 0xff][rng.below(9)];
+            }
+            data.extend_from_slice(term);
+        }
+        if rng.chance(1, 3) {
+            let cut = rng.below(data.len() + 1);
+            data.truncate(cut);
+        }
+        let nc = rng.below(12);
+        let racts: Vec<RAct> = (0..nc)
+            .map(|_| if rng.chance(1, 3) { RAct::Pending } else { RAct::Data([1usize, 7, 8, 9, size - 1, size, size + 5, 1000][rng.below(8)], rng.chance(1, 10)) })
+            .collect();
+        let np = racts.iter().filter(|a| **a == RAct::Pending).count();
+        let choices: String = if cancel { (0..np).map(|_| if rng.chance(1, 2) { 'c' } else { 'r' }).collect() } else { String::new() };
+        let pl = rng.below(9);
+        let pre: Vec<u8> = (0..pl).map(|i| b'p' + i as u8).collect();
+        let ri = if pl > 1 { rng.below(pl) } else { 0 };
+        let srw = ASrw::new(1, &data, racts);
+        if dispatch(size, df, &pre, ri, &srw, &choices, 40, w) {
+            n += 1;
+        }
+    }
+    eprintln!("STAT arf mode={} scenarios={} exhaustive_stream_len={} sizes={:?} long_frame_scenarios={}", mode, n, maxlen, sizes, lcases);
 }
 
 pub fn replay_line(l: &str, w: &mut impl std::io::Write) -> bool {
